@@ -3,11 +3,11 @@ import AioModel.C07
 /-!
 Driver commands of property C07.
 
-`run <fixes> <limit> <lph> <keys> <label>…` → the state projection after every label, joined
-by `|` (`last …`: only the final projection).  `<fixes>` = four 0/1 digits (f7 f8 race close); `<keys>` = `.`-separated key of each
+`run <fixes> <limit> <lph> <mask> <keys> <label>…` → the state projection after every label, joined
+by `|` (`last …`: only the final projection).  `<fixes>` = five 0/1 digits (f7 f8 race close trclose); `<mask>` = which trace hooks suspend; `<keys>` = `.`-separated key of each
 task; labels: `s<t>` spawn, `k` tick, `o<t>`/`f<t>` attempt ok/failed, `c<t>` cancel,
 `m<t>` connect timeout, `r<t>`/`x<t>` release to pool / close, `l<c>` idle connection lost,
-`C` connector close, `p<k>.<k>…` shuffle order.
+`C` connector close, `p<k>.<k>…` shuffle order, `t<t>` the trace callback of task t returns.
 -/
 namespace Aio.Driver.C07
 open Aio Aio.Wire Aio.C07
@@ -32,13 +32,14 @@ def parseLabel (s : String) : Option Label :=
     | 'l' => arg.toNat?.map .lose
     | 'C' => if rest.isEmpty then some .close else none
     | 'p' => (parseNats arg).map .shuffle
+    | 't' => arg.toNat?.map .traceDone
     | _ => none
 
 def parseFixes (s : String) : Option Fixes :=
   match s.toList with
-  | [a, b, c, d] =>
-    if [a, b, c, d].all (fun x => x == '0' || x == '1') then
-      some ⟨a == '1', b == '1', c == '1', d == '1'⟩
+  | [a, b, c, d, e] =>
+    if [a, b, c, d, e].all (fun x => x == '0' || x == '1') then
+      some ⟨a == '1', b == '1', c == '1', d == '1', e == '1'⟩
     else none
   | _ => none
 
@@ -47,18 +48,27 @@ def dots (l : List Nat) : String := if l.isEmpty then "-" else ".".intercalate (
 def showFail : Fail → String
   | .cancelled => "X" | .timeout => "T" | .oserr => "E" | .closedErr => "Q"
 
+def showHook : Hook → String
+  | .reuse _ => "r" | .qstart => "q" | .qend => "Q" | .cstart => "s" | .cend c => s!"e{c}"
+
 def showTask (x : Task) : String :=
   let bang := if x.extCancel || x.timedOut then "!" else ""
+  let tr := match x.tr with
+    | none => ""
+    | some (h, r) => "~" ++ showHook h ++ (if r then "+" else "")
+  let base := match x.pc with
+    | .idle => "i"
+    | .start => "s"
+    | .waiting => (match x.fut with | .pending => "w" | .woken => "W" | .cancelled => "V")
+    | .creating none => "c"
+    | .creating (some true) => "c+"
+    | .creating (some false) => "c-"
+    | .holding c => (if x.tr.isSome then s!"u{c}" else s!"h{c}")
+    | .done => "d"
+    | .failed f => showFail f
   match x.pc with
-  | .idle => "i"
-  | .start => "s" ++ bang
-  | .waiting => (match x.fut with | .pending => "w" | .woken => "W" | .cancelled => "V") ++ bang
-  | .creating none => "c" ++ bang
-  | .creating (some true) => "c+" ++ bang
-  | .creating (some false) => "c-" ++ bang
-  | .holding c => s!"h{c}"
-  | .done => "d"
-  | .failed f => showFail f
+  | .idle | .done | .failed _ | .holding _ => base ++ tr ++ (if x.tr.isSome then bang else "")
+  | _ => base ++ tr ++ bang
 
 def showSt (nkeys : Nat) (s : St) : String :=
   let ks := List.range nkeys
@@ -72,20 +82,20 @@ def showSt (nkeys : Nat) (s : St) : String :=
   s!"tasks={",".intercalate (s.tasks.map showTask)} open={opn} closed={showBool s.closed}"
 
 def handle : List String → String
-  | "run" :: fx :: limit :: lph :: keys :: labs =>
-    match parseFixes fx, limit.toNat?, lph.toNat?, parseNats keys, labs.mapM parseLabel with
-    | some fx, some limit, some lph, some keys, some labs =>
+  | "run" :: fx :: limit :: lph :: mask :: keys :: labs =>
+    match parseFixes fx, limit.toNat?, lph.toNat?, mask.toNat?, parseNats keys, labs.mapM parseLabel with
+    | some fx, some limit, some lph, some mask, some keys, some labs =>
       let nkeys := keys.foldl max 0 + 1
       let go := labs.foldl (fun (acc : St × List String) l =>
         let s := step fx acc.1 l
-        (s, showSt nkeys s :: acc.2)) (init limit lph keys, [])
+        (s, showSt nkeys s :: acc.2)) (init limit lph keys mask, [])
       "|".intercalate go.2.reverse
-    | _, _, _, _, _ => "bad-op"
-  | "last" :: fx :: limit :: lph :: keys :: labs =>
-    match parseFixes fx, limit.toNat?, lph.toNat?, parseNats keys, labs.mapM parseLabel with
-    | some fx, some limit, some lph, some keys, some labs =>
-      showSt (keys.foldl max 0 + 1) (run fx (init limit lph keys) labs)
-    | _, _, _, _, _ => "bad-op"
+    | _, _, _, _, _, _ => "bad-op"
+  | "last" :: fx :: limit :: lph :: mask :: keys :: labs =>
+    match parseFixes fx, limit.toNat?, lph.toNat?, mask.toNat?, parseNats keys, labs.mapM parseLabel with
+    | some fx, some limit, some lph, some mask, some keys, some labs =>
+      showSt (keys.foldl max 0 + 1) (run fx (init limit lph keys mask) labs)
+    | _, _, _, _, _, _ => "bad-op"
   | _ => "bad-op"
 
 end Aio.Driver.C07
